@@ -315,7 +315,7 @@ pub proof fn lemma_mono_ij(o: Seq<usize>, i: int, j: int)
 %s
 \'\'\'
 ''' % (len(names['table']), len(names['dynvec']), len(names['option']), len(names['union']), digest.hexdigest(), '\n'.join(specs))
-    out = os.path.join(ROOT, 'contracts', 'c15_dyn.toml')
+    out = os.path.join(ROOT, os.environ.get('C15_DYN_DIR', 'wip'), 'c15_dyn.toml')
     only = os.environ.get('ONLY')
     open(out, 'w').write(head + ''.join(items))
     print('c15_dyn: %d readers under contract (%s), %d callee contracts' % (len(dyn), ', '.join('%d %s' % (len(v), k_) for k_, v in names.items()), len(declared)))
